@@ -1365,7 +1365,7 @@ def impl(c):
         readback = []
         for pth, obj in after:
             for key in list(obj._data):
-                stored = obj._data[key]
+                held_v = obj._data[key]
                 for how, rd in (("attribute", lambda: getattr(obj, key)), ("item", lambda: obj[key])):
                     if how == "attribute" and not key.isidentifier():
                         continue
@@ -1374,11 +1374,11 @@ def impl(c):
                     except Exception as e:  # noqa
                         readback.append("reading %s by %s raises %s" % (pjoin(pth, key), how, type(e).__name__))
                         continue
-                    if is_cfg(stored) or isinstance(stored, (list, dict)):
-                        if got is not stored:
+                    if is_cfg(held_v) or isinstance(held_v, (list, dict)):
+                        if got is not held_v:
                             readback.append("reading %s by %s yields another object than the stored one" % (pjoin(pth, key), how))
-                    elif got != stored or type(got) is not type(stored):
-                        readback.append("reading %s by %s yields %r, the configuration holds %r" % (pjoin(pth, key), how, got, stored))
+                    elif got != held_v or type(got) is not type(held_v):
+                        readback.append("reading %s by %s yields %r, the configuration holds %r" % (pjoin(pth, key), how, got, held_v))
         trace.append({"ps": ps, "op": o, "out": out, "before": prev, "after": snap, "same": same, "tpath": tpath, "readback": readback,
                       "vlog": list(b.validator_log), "both": both, "defined_api": defined_api, "text": LAST_TEXT[0],
                       "stored": stored, "alias": via_alias, "in_tree": in_tree, "again": again})
